@@ -44,7 +44,13 @@ def lean_list(xs, f=lean_str) -> str:
     return "[" + ", ".join(f(x) for x in xs) + "]"
 
 
+class Raw(str):
+    """already rendered Lean source"""
+
+
 def lean_val(v) -> str:
+    if isinstance(v, Raw):
+        return str(v)
     if isinstance(v, bool):
         return "true" if v else "false"
     if isinstance(v, int):
@@ -102,6 +108,31 @@ def build() -> Tables:
     t.add("Rust", "blockingNetTypes", "List String", lambda: sorted(mod("src.linters.blocking_async.rust_analyzer")._BLOCKING_NET_TYPES))
     t.add("Rust", "asyncWrapperFunctions", "List String", lambda: sorted(mod("src.linters.blocking_async.rust_analyzer")._ASYNC_WRAPPER_FUNCTIONS))
     t.add("Rust", "loopNodeTypes", "List String", lambda: sorted(mod("src.linters.clone_abuse.rust_analyzer")._LOOP_NODE_TYPES))
+    # ---------------- config tooling (C20)
+    def _local_list(func, var):
+        import ast as _ast
+        src = (Path(REPO) / "src" / "config.py").read_text()
+        for node in _ast.walk(_ast.parse(src)):
+            if isinstance(node, _ast.FunctionDef) and node.name == func:
+                for sub in _ast.walk(node):
+                    if isinstance(sub, _ast.Assign) and any(isinstance(tg, _ast.Name) and tg.id == var for tg in sub.targets):
+                        return list(_ast.literal_eval(sub.value))
+        raise KeyError(f"{func}.{var}")
+
+    def _defaults():
+        out = []
+        for k, v in mod("src.config").DEFAULT_CONFIG.items():
+            if isinstance(v, bool) or not isinstance(v, (int, str)):
+                raise TypeError(v)
+            out.append(Raw(f"({lean_str(k)}, " + (f"Sum.inr {lean_val(v)}" if isinstance(v, int) else f"Sum.inl {lean_str(v)}") + ")"))
+        return out
+    t.add("Config", "linterSections", "List String", lambda: list(mod("src.cli.config_merge").LINTER_SECTIONS))
+    t.add("Config", "templateLines", "List String",
+          lambda: (Path(REPO) / "src" / "templates" / "thailint_config_template.yaml").read_text(encoding="utf-8").split("\n"))
+    t.add("Config", "defaultConfig", "List (String × (String ⊕ Int))", _defaults)
+    t.add("Config", "requiredKeys", "List String", lambda: _local_list("_validate_required_keys", "required_keys"))
+    t.add("Config", "validLogLevels", "List String", lambda: _local_list("_validate_log_level", "valid_log_levels"))
+    t.add("Config", "validOutputFormats", "List String", lambda: _local_list("_validate_output_format", "valid_formats"))
     # ---------------- ignore directives (C04)
     def alias_pairs():
         m = mod("src.core.rule_aliases")
